@@ -7,6 +7,7 @@ package main
 
 import (
 	"bytes"
+	"crypto/sha256"
 	"encoding/json"
 	"fmt"
 	"os"
@@ -247,7 +248,7 @@ func run(prop, tier string, meta Meta) {
 	// merge
 	merged := harness.WorkerResult{Property: prop, PerWorkload: map[string]int{}, Fired: map[string]int{}, Probes: map[string]int{}, Cells: map[string]int{}}
 	distinct := map[string]bool{}
-	var violLines, knownLines []string
+	var violLines, knownLines, runDigests []string
 	harnessTrouble := ""
 	for _, r := range results {
 		if r.res == nil {
@@ -294,6 +295,7 @@ func run(prop, tier string, meta Meta) {
 		for _, k := range wr.Known {
 			knownLines = append(knownLines, k)
 		}
+		runDigests = append(runDigests, wr.RunDigests...)
 	}
 	knownLines = uniq(knownLines)
 	wall := time.Since(start).Seconds()
@@ -351,6 +353,12 @@ func run(prop, tier string, meta Meta) {
 		"assumptions": meta.Assumptions,
 		"wall_s":      wall,
 		"violations":  len(violLines),
+	}
+	sort.Strings(runDigests)
+	fp := sha256.Sum256([]byte(strings.Join(runDigests, "\n")))
+	cov["determinism_fingerprint"] = fmt.Sprintf("%x", fp[:8])
+	if fpOut := os.Getenv("VERIF_FINGERPRINT_OUT"); fpOut != "" {
+		_ = os.WriteFile(fpOut, []byte(strings.Join(runDigests, "\n")+"\n"), 0o644)
 	}
 	_ = os.MkdirAll(filepath.Join(verifDir, "evidence"), 0o755)
 	b, _ := json.MarshalIndent(ev, "", " ")
